@@ -13,8 +13,13 @@ from . import c16
 
 
 def harnesses(tier, seed):
+    from . import c17
+    gfr = [h for h in c17.harnesses('quick', seed) if h.params['op'] == 'get_final_results']
+    for h in gfr:
+        h.name = 'model:' + h.name
+        h.home = 'C17'          # (only the C11-labelled obligation of that harness is discharged here)
     return c16.fit_harnesses(tier, seed, 'C11') + step.step_harnesses(tier, seed, 'C11') + outer.outer_harnesses(tier, seed, 'C11') + \
-        runstart.start_harnesses(tier, seed, 'C11')
+        runstart.start_harnesses(tier, seed, 'C11') + gfr
 
 
 def run(tier, seed):
